@@ -159,6 +159,28 @@ fn adversarial<const D: usize>(id: &str, rng: &mut Rng, out: &mut Out) {
     // the triangulation is still usable
     out.obs("still_valid", &tri::err_kind(&format!("{:?}", w.dt.as_triangulation().is_valid().map(|_| "ok"))));
     out.end();
+    // a document with two vertex UUIDs of one cell swapped LOADS (known finding F7b of C13); the
+    // Edit API must then still answer with Ok or a typed Err
+    if let Ok(mut doc) = serde_json::to_value(w.dt.tds()) {
+        let key = doc.get("cell_vertices").and_then(|m| m.as_object()).and_then(|m| m.keys().next().cloned());
+        if let Some(k) = key {
+            if let Some(l) = doc["cell_vertices"][&k].as_array_mut() { l.swap(0, 1); }
+            if let Ok(tds) = serde_json::from_str::<delaunay::core::triangulation_data_structure::Tds<f64, tri::VData, tri::CData, D>>(&doc.to_string()) {
+                let mut d2: tri::DtF<D> = DelaunayTriangulation::from_tds_with_topology_guarantee(tds, FastKernel::new(), tri::guarantee(1));
+                out.case(&format!("{id}_inc"), "adv", &format!("D={D} what=edit_on_incoherent_document"));
+                let cks: Vec<_> = d2.cells().map(|(k, _)| k).collect();
+                let mut n = 0;
+                for ck in cks.iter().take(4) {
+                    for f in 0..=(D as u8) {
+                        let (r, s2) = timed(|| d2.flip_k2(FacetHandle::new(*ck, f)));
+                        n += 1;
+                        out.obs(&format!("incoherent_flip_k2_{n}"), &cls(&r, s2));
+                    }
+                }
+                out.end();
+            }
+        }
+    }
     // a stale AdjacencyIndex is a handle like any other: its own case, so that it is judged alone
     if let Some(ix) = &index0 {
         out.case(&format!("{id}_ix"), "adv", &format!("D={D} what=stale_adjacency_index"));
